@@ -229,6 +229,19 @@ class HostFn(object):
         self.sym = sym
 
 
+class Prod(object):
+    """ a ply.yacc.YaccProduction as seen by a grammar action: p[0..n], len(p), p.slice[k] (str -> symbol name) """
+    def __init__(self, names, vals):
+        self.names = list(names)
+        self.vals = list(vals)
+        self.init_vals = list(vals)     # as handed to the action (for counterexamples)
+
+
+class SliceSym(object):
+    def __init__(self, name):
+        self.name = name
+
+
 class Cell(object):
     """ mutable cell for closures """
     __slots__ = ('v',)
@@ -291,6 +304,8 @@ class Ctx(object):
         self.depth = 0
         self.frozen = False       # True while evaluating merged sub expressions: forks forbidden -> handled by sub explorer
         self.notes = []
+        self.memo = {}
+        self.kind_log = []        # (sym, previous kinds): narrowing is undone when a sub-exploration ends
         self.has_quant = False
         self.phase = 'body'       # 'pre' | 'body' | 'post'
         self.post_prunes = 0      # spec/post paths refuted by the feasibility solver (each is a discharged obligation)
@@ -347,7 +362,14 @@ class Ctx(object):
             return True
         if z3.is_false(cond):
             return False
+        # a condition already decided on this path is not forked again (terms are hash-consed: same id = same term)
+        neg = z3.is_not(cond)
+        key = cond.arg(0).get_id() if neg else cond.get_id()
+        if key in self.memo:
+            return (not self.memo[key][0]) if neg else self.memo[key][0]
         c = self.choose([cond, z3.Not(cond)])
+        # the term is stored with the decision: AST ids are only unique among live terms
+        self.memo[key] = ((c != 0) if neg else (c == 0), cond)
         return c == 0
 
     def fresh(self, sort, hint='v'):
@@ -373,6 +395,7 @@ class Ctx(object):
                 return k
         ks = sorted(s.kinds, key=KINDS.index)
         c = self.choose([REC[k](s.val) for k in ks])
+        self.kind_log.append((s, s.kinds))
         s.kinds = frozenset((ks[c],))
         return ks[c]
 
@@ -385,8 +408,14 @@ class Ctx(object):
         if s.kinds <= kinds:
             return True
         r = self.branch(is_kind(s.val, *sorted(inter)))
+        self.kind_log.append((s, s.kinds))
         s.kinds = inter if r else (s.kinds - kinds)
         return r
+
+    def undo_narrowing(self):
+        for s, old in reversed(self.kind_log):
+            s.kinds = old
+        self.kind_log = []
 
     def oblige(self, kind, name, goal, where=None, note=None):
         self.obligations.append(Obligation(kind, name, self.pc, goal, where, note))
